@@ -624,6 +624,39 @@ func init() {
 	reg("strings.Index", func(m *Machine, fn *ssa.Function, a []Value) Value {
 		return m.indexString(a[0].(Str).B, a[1].(Str).B)
 	})
+	// strings.TrimSpace on a symbolic string: one fork per boundary position. A non-ASCII byte at
+	// a trim boundary (the real code switches to unicode.IsSpace over decoded runes there) ends
+	// the path as outside the bound.
+	reg("strings.TrimSpace", func(m *Machine, fn *ssa.Function, a []Value) Value {
+		b := a[0].(Str).B
+		if c, ok := a[0].(Str).Concrete(); ok {
+			return ConcStr(strings.TrimSpace(c), m.S)
+		}
+		s := m.S
+		isSp := func(x *Term) *Term {
+			return s.BOr(s.BOr(s.Eq(x, s.Const(8, ' ')), s.BAnd(s.ULe(s.Const(8, 9), x), s.ULe(x, s.Const(8, 13)))), s.False)
+		}
+		lo, hi := 0, len(b)
+		for lo < hi {
+			if m.Branch(s.ULe(s.Const(8, 0x80), b[lo])) {
+				m.end("bound", "strings.TrimSpace: non-ASCII byte at the trim boundary")
+			}
+			if !m.Branch(isSp(b[lo])) {
+				break
+			}
+			lo++
+		}
+		for hi > lo {
+			if m.Branch(s.ULe(s.Const(8, 0x80), b[hi-1])) {
+				m.end("bound", "strings.TrimSpace: non-ASCII byte at the trim boundary")
+			}
+			if !m.Branch(isSp(b[hi-1])) {
+				break
+			}
+			hi--
+		}
+		return Str{B: b[lo:hi]}
+	})
 	reg("unicode/utf8.ValidString", func(m *Machine, fn *ssa.Function, a []Value) Value {
 		if c, ok := a[0].(Str).Concrete(); ok {
 			return m.S.Bool(validUTF8(c))
